@@ -47,7 +47,7 @@ type Input struct {
 var valueKinds = []string{
 	"undefined", "null", "true", "0", "-0", "NaN", "1", "-1", "1.5", "255", "65536", "2147483648", "4294967295", "4294967296", "9007199254740992", "1e21", "Infinity", "-Infinity",
 	`""`, `"a"`, `"a\u00e9\ud83d\ude00"`, `"12"`, `"length"`, `"__proto__"`, `new String("ab")`, `new Number(5)`, `new Boolean(false)`,
-	"[]", "[1,2,3]", "[1,,3]", "[[1],[2]]", `({length:3,0:"a",2:"c"})`, "({length:3000})", `({length:"2",0:1,1:2})`, "({length:-1})", "({})", `({a:1,b:{c:2}})`,
+	"[]", "[1,2,3]", "[1,,3]", "[[1],[2]]", `({length:3,0:"a",2:"c"})`, "({length:3000})", `({length:"2",0:1,1:2})`, "({length:2.7,0:1})", "({})", `({a:1,b:{c:2}})`,
 	"Object.freeze({a:1})", "Object.freeze([1,2])", "Object.create(null)",
 	"function(){return 1}", "function(a,b){return this}", "function(){throw new Error('cb')}", "function(){return {}}", "Object", "Array.prototype.push", "eval",
 	"new Date(0)", "new Date(NaN)", "/a/g", "/(a)|b/", "new Error('e')", "new TypeError('t')", "(function(){return arguments})(1,2)",
@@ -171,6 +171,16 @@ func Surface() []string {
 
 // touch runs every public accessor on a value; any Go panic propagates.
 func touch(v otto.Value) {
+	if o := v.Object(); o != nil {
+		// resource-exhaustion exclusion: nothing is done with objects whose
+		// length is beyond the 65536 cap (e.g. new Array(4294967295)): even
+		// String() would join billions of holes
+		if l, err := o.Get("length"); err == nil && l.IsNumber() {
+			if f, _ := l.ToFloat(); f > 70000 {
+				return
+			}
+		}
+	}
 	_ = v.String()
 	_, _ = v.ToString()
 	_, _ = v.ToFloat()
@@ -392,9 +402,17 @@ func exec(c *run.Ctx, i int) {
 
 // goAPI calls a built-in through Otto.Call / Value.Call / Object.Call.
 func goAPI(c *run.Ctx, fn string, r *gen.Rand) {
+	pairs := make([][2]int, 12)
+	for k := range pairs {
+		pairs[k] = [2]int{r.Intn(len(valueKinds)), r.Intn(len(valueKinds))}
+	}
+	goAPIPairs(c, fn, pairs)
+}
+
+func goAPIPairs(c *run.Ctx, fn string, pairs [][2]int) {
 	vm := newVM()
-	for k := 0; k < 12; k++ {
-		t, a := r.Intn(len(valueKinds)), r.Intn(len(valueKinds))
+	for _, pr := range pairs {
+		t, a := pr[0], pr[1]
 		in := Input{Kind: "surface", Fn: fn, Via: "gocall", This: t, A: a}
 		c.Announce(in)
 		pv, st := run.Guard(func() {
@@ -642,7 +660,7 @@ func runStack(c *run.Ctx, in Input) {
 		c.Fail("mismatch", "stack:"+in.Shape, in, "value or RangeError", out.Err.Error(), src)
 		return
 	}
-	if strings.HasPrefix(in.Shape, "unbounded") && in.Limit == 1 {
+	if (in.Shape == "unbounded" || in.Shape == "unbounded-catch") && in.Limit == 1 {
 		// a limit of 1 admits no call at all: the RangeError is raised at the
 		// top-level call site, outside the function's own try
 		if out.Err == nil {
@@ -678,7 +696,7 @@ func replay(c *run.Ctx, in Input) {
 			return
 		}
 		if in.Via == "gocall" {
-			goAPI(c, in.Fn, gen.New(1, "C02/replay", 0))
+			goAPIPairs(c, in.Fn, [][2]int{{in.This, in.A}})
 			return
 		}
 		runBatch(c, in.Fn, in.Via, []int{in.This}, []int{in.A}, []int{in.B}, []int{in.C})
